@@ -106,6 +106,17 @@ def _enum_obj(kind, name, init, maxlen, ops, base_tid):
     return out
 
 
+def _enum_fan(shards, base_tid):
+    t0 = killdriver.run_kill_fanout_create(shards, 0, base_tid)
+    out = [t0]
+    for n in range(1, t0['points'] + 1):
+        out.append(killdriver.run_kill_fanout_create(shards, n, base_tid + n))
+    for t in out:
+        t['workload'] = 'create a FanoutCache with %d shards, then set' % shards
+        t['point'] = 'event %d of the creation' % t['kill_at']
+    return out
+
+
 def _async(cfg, name, init, ops, delay, tid):
     t = killdriver.run_kill(cfg, init, ops, 0, tid, async_delay=delay)
     t['workload'] = name
@@ -135,8 +146,12 @@ def run(prop, tier, seed):
         tid += 1000
     design_level(out, 'C07', tier)
     res = pmap(_enum, jobs, procs=14)
+    # the creation of a sharded cache: every statement / file operation of FanoutCache(directory, shards=n) is a kill point
+    fres = pmap(_enum_fan, [(sh, tid + 1000 * i) for i, sh in enumerate((2,) if tier == 'quick' else (2, 3, 8))], procs=3)
+    res = res + fres
     traces = [t for lst in res for t in lst]
     points = sum(lst[0]['points'] for lst in res)
+    out.notes['kill_points_in_sharded_creation'] = sum(lst[0]['points'] for lst in fres)
     if tier == 'thorough':
         ajobs = []
         for i in range(600):
